@@ -204,6 +204,10 @@ pub fn lex_long_decade(source: &[char]) -> Option<FoundToken> {
     if source[4] != 's' {
         return None;
     }
+    // `1980st` is the number 1980 with a suffix, not a decade.
+    if source.get(5).is_some_and(|c| c.is_alphanumeric()) {
+        return None;
+    }
 
     Some(FoundToken {
         token: TokenKind::Decade,
